@@ -298,6 +298,44 @@ func (w *world) isFaulty(k int) bool {
 }
 
 // byzPropose: a faulty proposer sends one or two (equivocating) proposals, valid or not, to drawn groups.
+// forgedPOL draws the POL round a faulty proposer claims for round r of height h: none, any earlier round, or —
+// goal-directed — an earlier round in which some correct node really holds a two-thirds prevote majority (for
+// whatever value: the lie "there was a polka for MY block" is most dangerous where a polka for another block exists).
+func forgedPOL(t *rapid.T, net *Net, h int64, r int32, label string) int32 {
+	if r <= 0 {
+		return -1
+	}
+	switch rapid.SampledFrom([]string{"none", "any", "real-polka", "real-polka"}).Draw(t, label) {
+	case "any":
+		return rapid.Int32Range(0, r-1).Draw(t, label+"r")
+	case "real-polka":
+		var rounds []int32
+		for pr := int32(0); pr < r; pr++ {
+			for _, k := range net.Order {
+				n := net.Nodes[k]
+				if n.Crashed != "" {
+					continue
+				}
+				rs := n.RS()
+				if rs.Height != h || rs.Votes == nil {
+					continue
+				}
+				if pv := rs.Votes.Prevotes(pr); pv != nil {
+					if _, ok := pv.TwoThirdsMajority(); ok {
+						rounds = append(rounds, pr)
+						break
+					}
+				}
+			}
+		}
+		if len(rounds) > 0 {
+			return rounds[rapid.IntRange(0, len(rounds)-1).Draw(t, label+"p")]
+		}
+		return rapid.Int32Range(0, r-1).Draw(t, label+"r")
+	}
+	return -1
+}
+
 func (w *world) byzPropose() bool {
 	var cands []*Node
 	for _, k := range w.net.Order {
@@ -362,10 +400,7 @@ func (w *world) byzPropose() bool {
 				w.note(h, bi)
 			}
 		}
-		pol := int32(-1)
-		if r > 0 && rapid.Bool().Draw(w.t, "pol") {
-			pol = rapid.Int32Range(0, r-1).Draw(w.t, "polr")
-		}
+		pol := forgedPOL(w.t, w.net, h, r, "pol")
 		withParts := rapid.IntRange(0, 5).Draw(w.t, "parts") != 0
 		w.net.InjectProposal(pk, h, r, pol, bi.block, bi.parts, groups[i], withParts)
 		w.stats.byzProposals++
@@ -1000,10 +1035,7 @@ func (w *world) structuredByzProposal(h int64, r int32, pk int, pat pattern) {
 		}
 		return &bi
 	}
-	pol := int32(-1)
-	if r > 0 && rapid.Bool().Draw(w.t, "bprop.pol") {
-		pol = rapid.Int32Range(0, r-1).Draw(w.t, "bprop.polr")
-	}
+	pol := forgedPOL(w.t, w.net, h, r, "bprop.pol")
 	group := pat.group
 	rest := map[int]bool{}
 	for _, c := range w.net.Order {
